@@ -531,7 +531,28 @@ class Checker:
             body = fi.body()
             wl = [n for n in body if isinstance(n, ast.While)]
             if len(wl) != 1:
-                raise AnalysisError('%s: parent walk loop not recognised' % name)
+                # a second recognised form: the ancestors come from R6Tree.getNeighborChain(node, bound), directly or through a method of the planner.
+                # That walk stops after `bound` hops; only the number of nodes in the tree bounds the depth of a node, and the planner's settings
+                # (iterations of the LAST growth call, ...) do not: a tree grown by several calls is deeper than the last budget.
+                chain_calls, seen_m, todo_m = [], set(), [fi.node]
+                while todo_m:
+                    fn_ = todo_m.pop()
+                    for c_ in ast.walk(fn_):
+                        if isinstance(c_, ast.Call) and isinstance(c_.func, ast.Attribute):
+                            if c_.func.attr == 'getNeighborChain' and len(c_.args) == 2:
+                                chain_calls.append(c_)
+                            elif isinstance(c_.func.value, ast.Name) and c_.func.value.id == 'self' and c_.func.attr in self.rrt.methods \
+                                    and c_.func.attr not in seen_m and 'Tree' not in c_.func.attr:
+                                seen_m.add(c_.func.attr)
+                                todo_m.append(self.rrt.methods[c_.func.attr].node)
+                capped = [c_ for c_ in chain_calls if norm_text(c_.args[1]) not in ('self.r6_tree_graph.getCount()', 'self.r6_tree_graph.count')]
+                if not capped:
+                    raise AnalysisError('%s: parent walk loop not recognised' % name)
+                rep.ob('R16.6', fi, 'walk continues until the root', False,
+                       '%s collects the ancestors with getNeighborChain(%s, %s): the chain stops after %s hops, so when the node nearest the goal lies deeper '
+                       '(a tree grown by several calls, a budget lowered between calls) the returned path does not start at the start node'
+                       % (name, src(capped[0].args[0]), src(capped[0].args[1]), src(capped[0].args[1])), line=capped[0].lineno)
+                continue
             w = wl[0]
             cur = None
             t = w.test
